@@ -129,8 +129,8 @@ def _build_argv(v, outdir):
 def fresh_outdir(tag='gen', nested=False, style=0):
     """A not yet existing output directory; nested=True: its parent does not exist either
     (the README layout `-o ./hr/instances`).  style: how the name is spelt - 1 upper-case
-    letters, 2 a blank in the name, 3 a trailing slash."""
-    name = {1: tag.capitalize() + '_A', 2: tag + ' dir'}.get(style, tag)
+    letters, 2 a blank in the name, 3 a trailing slash, 4 a hidden directory (leading dot)."""
+    name = {1: tag.capitalize() + '_A', 2: tag + ' dir', 4: '.' + tag}.get(style, tag)
     top = os.path.join(solverio.workdir(), name)
     if os.path.exists(top):
         shutil.rmtree(top)
@@ -162,15 +162,26 @@ def run_prior(prior):
             pass        # the prior run's own behaviour is not what the case checks
 
 
-def run_generator(argv, seed):
-    """Runs Generator(argv) with both global RNGs seeded.  Returns
-    ('ok', None, stderr) or ('exit', code, stderr); other exceptions become Violations."""
+def relative_outdir(outdir):
+    """(cwd, relative spelling) for an outdir below the scratch directory: the run is made
+    from the scratch directory with `-o ./<rest>`."""
+    w = solverio.workdir()
+    return w, './' + os.path.relpath(outdir, w) + ('/' if outdir.endswith('/') else '')
+
+
+def run_generator(argv, seed, cwd=None):
+    """Runs Generator(argv) with both global RNGs seeded (from directory cwd, if given).
+    Returns ('ok', None, stderr) or ('exit', code, stderr); other exceptions become
+    Violations."""
     import numpy as np
     from matchingproblems import generator as gen_pkg
     st_py, st_np = random.getstate(), np.random.get_state()
     random.seed(seed)
     np.random.seed(seed)
     err = io.StringIO()
+    old = os.getcwd() if cwd else None
+    if cwd:
+        os.chdir(cwd)
     try:
         with contextlib.redirect_stderr(err):
             try:
@@ -179,6 +190,8 @@ def run_generator(argv, seed):
                 return 'exit', e.code, err.getvalue()
         return 'ok', None, err.getvalue()
     finally:
+        if old:
+            os.chdir(old)
         random.setstate(st_py)
         np.random.set_state(st_np)
 
